@@ -404,3 +404,52 @@ Proof.
         destruct (Z.leb_spec (2 ^ (w - 1)) (v + 2 ^ w)); lia.
   - apply Z.mod_small. lia.
 Qed.
+
+(* ------------------------------------------------------------------ inside the enclosing object *)
+
+Lemma bytes_ok_unit_at off size mem : bytes_ok mem -> bytes_ok (unit_at off size mem).
+Proof.
+  intros H. unfold unit_at, bytes_ok in *.
+  rewrite <- (firstn_skipn off mem) in H. apply Forall_app in H. destruct H as [_ H].
+  rewrite <- (firstn_skipn size (skipn off mem)) in H. apply Forall_app in H. tauto.
+Qed.
+
+Theorem isolated_object T w sh v off mem : placement T w sh ->
+  (off + isize T <= List.length mem)%nat -> bytes_ok mem ->
+  let r := bf_write_at T w sh v off mem in
+  if acceptb (isigned T) w v then
+    fst r = BOk tt /\
+    List.length (snd r) = List.length mem /\
+    (forall j d, (j < off \/ off + isize T <= j)%nat -> nth j (snd r) d = nth j mem d) /\
+    (forall i, 0 <= i -> ~ (sh <= i < sh + w) ->
+       Z.testbit (read_raw_unsigned (unit_at off (isize T) (snd r))) i =
+       Z.testbit (read_raw_unsigned (unit_at off (isize T) mem)) i) /\
+    bf_read_at T w sh off (snd r) = BOk (if isigned T && (w =? 1) && (v =? 1) then -1 else v)
+  else r = (BErr OverflowError, mem).
+Proof.
+  intros P Hlen Hb. cbv zeta. unfold bf_write_at, bf_read_at.
+  assert (unit_ok T (unit_at off (isize T) mem)) as U.
+  { split; [apply unit_at_length; exact Hlen|apply bytes_ok_unit_at; exact Hb]. }
+  pose proof (write_exact T w sh v _ P U) as H.
+  destruct (acceptb (isigned T) w v) eqn:A.
+  - destruct H as [d' [E [[L' B'] Bits]]]. rewrite E. cbn [fst snd].
+    split; [reflexivity|]. split; [apply splice_length; lia|].
+    split; [intros j d Hj; apply nth_splice_outside; lia|].
+    assert (unit_at off (isize T) (splice off d' mem) = d') as ->
+      by (rewrite <- L'; apply unit_at_splice; lia).
+    split.
+    + intros i Hi Out. rewrite Bits by exact Hi.
+      assert (in_field w sh i = false) as -> by (unfold in_field; lia). reflexivity.
+    + apply (roundtrip T w sh v _ d' P U E).
+  - rewrite H. cbn. rewrite splice_same by exact Hlen. reflexivity.
+Qed.
+
+(* _Bool fields: C (and gcc) only allow width 1, where the range is {0, 1} *)
+Corollary bool_field T sh v data : placement T 1 sh -> ibool T = true -> unit_ok T data ->
+  (exists data', bf_write T 1 sh v data = (BOk tt, data')) <-> (v = 0 \/ v = 1).
+Proof.
+  intros P Hb U. rewrite (accept_iff T 1 sh v data P U).
+  destruct P as [_ _ _ _ Pb]. destruct (Pb Hb) as [_ Sg]. rewrite Sg.
+  unfold accepted, fmin, fmax. change (2 ^ 1 - 1) with 1.
+  split; [intros [H|[H _]]; [lia|discriminate]|intros H; left; lia].
+Qed.
